@@ -20,6 +20,8 @@ Definition default_score_i16 : option N := Some 161.
 Definition default_score_i32 : option N := Some 191.
 Definition default_score_i64 : option N := Some 190.
 Definition variadic_same_score : option N := Some 200.
+Definition setop_full_type_equality : option N := Some 1.
+Definition setop_arity_check : option N := Some 1.
 Definition score_table : list (list (option N)) := [
   [Some 10; None; None; None; None; None; None; None; None; None; None; None; None; None; None; None; None; None; None; None; None; None; None; None; None; None; None];
   [Some 10; None; None; None; None; None; None; None; None; None; None; None; None; None; None; None; None; None; None; None; None; None; None; None; None; None; None];
